@@ -46,6 +46,7 @@ class Funcs:
         self.exp = arr(o.get("exp"), n) if o.get("exp") is not None else None
         self.logbar = o.get("logbar")  # {"mu":..., "pole":[...], "sign":[...]}
         self.rosen = bool(o.get("rosen"))
+        self.entropy = bool(o.get("entropy"))  # sum x log x - x, defined for x > 0 only
         rows = spec.get("rows", [])
         self.m = len(rows)
         self.Q = [mat(r.get("Q"), n) for r in rows]
@@ -71,6 +72,9 @@ class Funcs:
         if self.rosen:
             for i in range(self.n - 1):
                 v += 100.0 * (x[i + 1] - x[i] ** 2) ** 2 + (1.0 - x[i]) ** 2
+        if self.entropy:
+            with np.errstate(all="ignore"):
+                v += float(np.sum(x * np.log(x) - x))
         return float(v)
 
     def grad(self, x):
@@ -89,6 +93,9 @@ class Funcs:
             for i in range(self.n - 1):
                 g[i] += -400.0 * x[i] * (x[i + 1] - x[i] ** 2) - 2.0 * (1.0 - x[i])
                 g[i + 1] += 200.0 * (x[i + 1] - x[i] ** 2)
+        if self.entropy:
+            with np.errstate(all="ignore"):
+                g = g + np.log(x)
         return g
 
     def hessf(self, x):
@@ -110,6 +117,9 @@ class Funcs:
                 Hm[i, i + 1] += -400.0 * x[i]
                 Hm[i + 1, i] += -400.0 * x[i]
                 Hm[i + 1, i + 1] += 200.0
+        if self.entropy:
+            with np.errstate(all="ignore"):
+                Hm = Hm + np.diag(np.where(x > 0, 1.0 / x, np.nan))
         return Hm
 
     # ---- constraints
@@ -131,6 +141,8 @@ class Funcs:
         x = np.asarray(x, dtype=float)
         Hm = np.zeros((self.n, self.n))
         for i in range(self.m):
+            if not self.hasQ[i] and not self.ccub[i].any():
+                continue  # affine row: contributes nothing, whatever the multiplier (as a hand-written Hessian would)
             Hm = Hm + y[i] * (self.Q[i] + np.diag(6.0 * self.ccub[i] * x))
         return Hm
 
@@ -149,7 +161,7 @@ class Funcs:
         d = (self.cub != 0) | (self.quart != 0)
         if self.exp is not None:
             d = d | (self.exp != 0)
-        if self.logbar is not None:
+        if self.logbar is not None or self.entropy:
             d = d | True
         P = P | np.diag(d)
         if self.rosen:
